@@ -61,6 +61,8 @@ impl<const N: usize> Context<N> {
 pub struct AEADCipherCodec<const N: usize> {
     encoder: Option<ChunkEncoder>,
     decoder: Option<ChunkDecoder>,
+    /// request plaintext received before the leading address is complete (server side, legacy ciphers)
+    pending: BytesMut,
 }
 
 impl<const N: usize> AEADCipherCodec<N> {
@@ -135,6 +137,18 @@ impl<const N: usize> AEADCipherCodec<N> {
             Some(ref mut decoder) => {
                 let mut dst = BytesMut::new();
                 decoder.decode_payload(src, &mut dst).map_err(|e| anyhow!(e))?;
+                if matches!(session.mode, Mode::Server) && session.address.is_none() {
+                    // the request of a legacy cipher starts with the target address
+                    self.pending.extend_from_slice(&dst);
+                    return match address::try_decode_at(&self.pending, 0)? {
+                        Some(len) if self.pending.len() >= len => {
+                            let mut dst = self.pending.split();
+                            session.address = Some(address::decode(&mut dst)?);
+                            Ok(Some(dst))
+                        }
+                        _ => Ok(None),
+                    };
+                }
                 if dst.is_empty() { Ok(None) } else { Ok(Some(dst)) }
             }
             None => self.init_payload_decoder(context, session, src),
